@@ -20,7 +20,32 @@ func init() {
 	})
 }
 
+// noRuntimeLimits: the documented limits are the only ones. The interpreter's own limit of 4096
+// nested calls is sized for Go's default stack; lowering the runtime's ceilings turns recursion that
+// the call limit would have reported into a fatal runtime error.
+func noRuntimeLimits(c *Ctx, rule string) {
+	p := c.P
+	c.note("%s no-runtime-limits: no function of the module changes the Go runtime's resource ceilings (runtime/debug.SetMaxStack, SetMaxThreads, SetMemoryLimit, SetGCPercent; runtime.GOMAXPROCS): with a smaller stack the evaluator's recursion reaches `fatal error: stack overflow` before its own call-depth limit is reported.", rule)
+	forbidden := map[string]bool{"runtime/debug.SetMaxStack": true, "runtime/debug.SetMaxThreads": true, "runtime/debug.SetMemoryLimit": true, "runtime/debug.SetGCPercent": true, "runtime.GOMAXPROCS": true}
+	n := 0
+	for _, fn := range p.Funcs {
+		if !p.InModule(fn) || p.inTestFile(fn) {
+			continue
+		}
+		for _, call := range callsIn(fn) {
+			if g := call.Common().StaticCallee(); g != nil && forbidden[g.String()] {
+				n++
+				c.violated(rule, "runtime-limit "+g.String()+" in "+shortName(fn), p.InstrPos(call), g.String()+" changes a ceiling of the Go runtime: deep but legal recursion (or large but legal values) then ends in a fatal runtime error instead of the documented runtime error")
+			}
+		}
+	}
+	if n == 0 {
+		c.ok(rule, "runtime-limits", "", "no call that changes the Go runtime's ceilings")
+	}
+}
+
 func runC20(c *Ctx) {
+	noRuntimeLimits(c, "R10")
 	defer c.shared("R9", "C04/R3", "everything up to the decoder's nesting limit works: the renderer and the JSON converter give the cycle verdict only when the path scan finds the value among its ancestors, never because of its depth", keyHas("cycle-verdict"), func(s *Ctx) {
 		cycleGuard(s, "R3", "(*Value).toGoValueInterval")
 		cycleGuard(s, "R3", "(*Value).prettyStringInteral")
